@@ -901,9 +901,15 @@ def build_loop(tree):
                                      'records, its dimension index value).  No statement of the loop body re-binds `plane_index` / '
                                      '`plane_dim_ind` (checked; a re-binding makes the translation refuse)'))
     # every mention of the sort index / the loop variables in the constructor is accounted for
-    counts = {nm: sum(1 for n in ast.walk(fn) if isinstance(n, ast.Name) and n.id == nm) for nm in ('plane_sort_index',) + tracked}
-    if counts != {'plane_sort_index': 6, 'plane_index': 13, 'plane_dim_ind': 2}:
-        raise Unsupported(f'frame loop: mentions of plane_sort_index / plane_index / plane_dim_ind changed: {counts}')
+    # (reads of `plane_index` elsewhere -- e.g. in the source-frame reference, which other properties' fixes edit -- are not
+    # placement; what matters is that the loop variables are bound exactly once, by the loop itself, that the sort index is not
+    # touched outside the known assignments, and the three expressions of `frameBookkeeping` above)
+    counts = {'plane_sort_index': sum(1 for n in ast.walk(fn) if isinstance(n, ast.Name) and n.id == 'plane_sort_index')}
+    for nm in tracked:
+        counts[nm + ' bound'] = sum(1 for n in ast.walk(fn) if isinstance(n, ast.Name) and n.id == nm
+                                    and isinstance(n.ctx, (ast.Store, ast.Del)))
+    if counts != {'plane_sort_index': 6, 'plane_index bound': 1, 'plane_dim_ind bound': 1}:
+        raise Unsupported(f'frame loop: mentions of plane_sort_index / bindings of plane_index, plane_dim_ind changed: {counts}')
     psi_assigns = sorted(ast.unparse(st.value)[:60] for st in ast.walk(fn) if isinstance(st, ast.Assign)
                          and any(isinstance(n, ast.Name) and n.id == 'plane_sort_index' for t in st.targets for n in ast.walk(t)))
     rows.append(('sort.assignments', ' | '.join(psi_assigns)))
